@@ -43,6 +43,8 @@ Record table := {
   t_action : string;          (* the action the property demands for this server (conf.AuthAction...) *)
   t_withpath : bool;          (* the action is per path (playback) *)
   t_root : string;            (* variable holding gin.New() *)
+  t_proxies_set : bool;       (* Initialize calls root.SetTrustedProxies(<recv>.TrustedProxies.ToTrustedProxies()) exactly once and
+                                 unconditionally; without that call gin keeps its default and trusts EVERY peer as a proxy *)
   t_regs : list reg
 }.
 
@@ -233,7 +235,38 @@ Definition denied_status (t : table) (q : request) : Z :=
 
 End Serve.
 
+(* ---- the client address: gin's Context.ClientIP ------------------------------------------ *)
+
+(* what arrives on the wire: the address of the TCP peer, and the address that the forwarding headers name (the first of
+   X-Forwarded-For / X-Real-Ip that holds a valid address; None = no such header). Anybody can send those headers. *)
+Record wire := { w_peer : list Z; w_forwarded : option (list Z) }.
+
+Definition forwarded_or_peer (w : wire) : list Z :=
+  match w_forwarded w with Some f => f | None => w_peer w end.
+
+(* Context.ClientIP: `trusted := engine.isTrustedProxy(remoteIP)`; the headers are only looked at when the peer is trusted.
+   `trusted` = membership in the configured list (conf: apiTrustedProxies, ...), which is what the engine checks once
+   SetTrustedProxies was called with it; an engine on which it was never called trusts 0.0.0.0/0 and ::/0. *)
+Definition client_ip (t : table) (trusted : list Z -> bool) (w : wire) : list Z :=
+  if (if t_proxies_set t then trusted (w_peer w) else true) then forwarded_or_peer w else w_peer w.
+
+(* the address the server is ENTITLED to believe: the forwarded one only if the peer is a configured trusted proxy *)
+Definition believed (trusted : list Z -> bool) (w : wire) : list Z :=
+  if trusted (w_peer w) then forwarded_or_peer w else w_peer w.
+
+(* the request the handlers see *)
+Definition on_wire (t : table) (trusted : list Z -> bool) (w : wire) (q : request) : request :=
+  {| q_method := q_method q; q_pattern := q_pattern q; q_listed := q_listed q; q_acrm := q_acrm q; q_creds := q_creds q;
+     q_ip := client_ip t trusted w; q_path := q_path q; q_other := q_other q |}.
+
+Definition serve_wire (auth : string -> option (list Z) -> creds -> list Z -> bool) (valid_path : list Z -> bool)
+    (t : table) (trusted : list Z -> bool) (w : wire) (q : request) : response :=
+  serve auth valid_path t (on_wire t trusted w q).
+
 (* ---- decidable conditions on a table --------------------------------------------------- *)
+
+(* the engine was told the configured proxy list (side condition of the *_wire theorems) *)
+Definition proxies_ok (t : table) : bool := t_proxies_set t.
 
 Definition psrc_eqb (a b : psrc) : bool :=
   match a, b with PNone, PNone | PQuery, PQuery | POther, POther => true | _, _ => false end.
